@@ -93,7 +93,8 @@ ob("O-C16-vars", ["C16", "C01"], C, "c16_var_numbering", "Compiler::var with no 
 ob("O-C01-binds", ["C01"], C, "c01_binds", "binds(sig, args) pairs the i-th signature kind (variable / filter) with the i-th argument id, in order", [CORE + "compile.rs::binds"], label="bounded", bound="<= 3 arguments, kinds and ids symbolic")
 ob("O-C03-peek", ["C03"], C, "c03_next_if_one", "next_if_one returns an element only under size_hint upper bound Some(1); pulls nothing when it declines because of the hint; never pulls an element it does not return (ghost pull counter on the upstream iterator)", [CORE + "box_iter.rs::next_if_one"], label="bounded", bound="upstream streams of length <= 3, every honest size hint")
 ob("O-C03-map", ["C03"], C, "c03_map_with", "map_with: output k is r(l_k, x); delivering it has pulled upstream at most k+1 times (+1 look-ahead only under hint Some(1)) and run r exactly k+1 times", [CORE + "box_iter.rs::map_with", CORE + "box_iter.rs::next_if_one"], label="bounded", bound="upstream streams of length <= 3, every honest size hint")
-ob("O-C03-flatmap", ["C03"], C, "c03_flat_map_then", "flat_map_then / then: all outputs of upstream element k are delivered before the right-hand side runs for element k+1; an upstream error is passed through in place", [CORE + "box_iter.rs::flat_map_then", CORE + "box_iter.rs::then"], label="bounded", bound="upstream streams of length <= 3 with an error at any position, two outputs per element")
+for n in range(4):
+    ob(f"O-C03-flatmap-{n}", ["C03"], C, f"c03_flat_map_then_{n}", f"flat_map_then / then on upstream streams of length {n}: all outputs of upstream element k are delivered before the right-hand side runs for element k+1; an upstream error is passed through in place", [CORE + "box_iter.rs::flat_map_then", CORE + "box_iter.rs::then", CORE + "box_iter.rs::next_if_one"], label="bounded", bound=f"length {n}, every error position, every honest size hint <= 4, two outputs per element (enumerated concretely)")
 ob("O-C03-then", ["C03"], C, "c03_then", "then: an Err is yielded as the single item and the continuation does not run; an Ok runs it once", [CORE + "box_iter.rs::then"])
 ob("O-C03-once", ["C03"], C, "c03_collect_if_once", "collect_if_once: the generator runs once; at most one element is taken eagerly and only under hint Some(1); otherwise the stream is recreated lazily and yields every element", [CORE + "into_iter.rs::collect_if_once"], label="bounded", bound="streams of length <= 3, every honest size hint")
 ob("O-C03-lazy", ["C03"], C, "c03_lazy", "filter::lazy(f): f does not run before the first next(), and runs exactly once", [CORE + "filter.rs::lazy"], label="bounded", bound="streams of length <= 3")
@@ -183,6 +184,17 @@ CFG = {
             "explanation": "CBOR integer kernel, reader side: the arithmetic the real parse applies to the two integer major types (n -> n, n -> -1 - n via `neg as i128 ^ !0`) is proved exact for every argument that yields a machine integer, one harness per header variant. Loop-free; complete for that function and domain. The writer side (encode of a machine integer through ciborium-ll) did not finish in CBMC (5 attempts: symbolic execution walks every arm of the recursive encode) and is not claimed.",
             "not_decided": "CBOR encode (writer side) and therefore the round trip itself; YAML (document structure, tags, anchors, plain-scalar quoting: must_quote + resolver on symbolic strings did not finish in 50 min), TOML keys and tables (toml-span), XML (xmlparser), CSV / TSV (aho-corasick), CBOR strings, floats, containers, big integers (num-bigint), --from / --to, well-formedness for independent readers",
             "assumptions": ["ciborium-ll's Header values are taken as given (the decoder that produces them is not verified)"],
+        },
+        "C05": {
+            "level": "proof",
+            "explanation": "Kani checks, on every path of every harness, arithmetic overflow, out-of-bounds indexing, slicing off bounds, unwrap / expect on None / Err, unreachable!, panic!, assert! and division by zero. 'No input can crash' is therefore the implicit postcondition of every function put under contract for the other properties, called on all arguments its callers can construct: the position arithmetic and integer / float operators of jaq-json, Num::length, the generic kernels of jaq-std (implode, explode, round, try_as_i32, the conversions around jiff) over the abstract value type, the CBOR integer arms. Complete obligations only are counted as proved; bounded ones are listed separately.",
+            "not_decided": "panics inside dependencies on hostile input (YAML / XML / TOML / regex parsers), the panic!() arms that rely on third-party parser invariants, the lexer, parser and compiler on arbitrary filter text, diagnostics rendering and span arithmetic, the product of all natives x all arguments, Val-level dispatch (index_opt, range, map_index, map_range, arithmetic on containers and strings), skip_take_chars / bytes_splice, CSV / TSV readers, stack / memory exhaustion (excepted by the property)",
+            "assumptions": ["third-party callees are stubbed or excluded as stated per obligation"],
+        },
+        "C12": {
+            "level": "other",
+            "explanation": "Of the collection built-ins only the native numeric kernel round / floor / ceil (ValTx::round) is decided, as a trait-contract instance over the abstract value type with the rounding function abstracted to any float result (complete over f64). The sorting / grouping / extremum kernels (sort_by, group_by, cmp_by) are closures over boxed key streams and did not fit CBMC within the budget; everything defined in defs.jq is jq source.",
+            "not_decided": "sort_by / group_by / unique_by / min_by / max_by laws, keys = keys_unsorted | sort, to_entries / from_entries / with_entries, indices, bsearch, flatten, transpose, walk, del, paths, pick, join, splits, contains, ltrimstr family",
         },
     },
     "obligations": OBS,
